@@ -229,6 +229,56 @@ class Func:
                 return i
         return None
 
+    # ---- single-definition locals (aliases)
+    def scoped_decls(self):
+        """{name: [(block, init expr)]} for locals that are only ever defined by declarations with a call-free initialiser (several
+        declarations of one name in sibling scopes are fine), never assigned, incremented or address-taken"""
+        if getattr(self, '_scoped', None) is None:
+            decls = {}
+            bad = set()
+            for bid, _, ev in self.events():
+                if ev['k'] == 'decl':
+                    for d in ev['d']:
+                        i_ = d.get('init')
+                        if i_ is not None and not calls_in(i_) and strip_casts(i_).get('k') != 'initlist':
+                            decls.setdefault(d['n'], []).append((bid, i_))
+                        else:
+                            bad.add(d['n'])
+                elif ev['k'] == 'assign':
+                    l = strip_casts(ev['lhs'])
+                    if isinstance(l, dict) and l.get('k') == 'ref':
+                        bad.add(l['n'])
+                for k in ('e', 'lhs', 'rhs', 'val'):
+                    if ev.get(k) is not None:
+                        for n in walk(ev[k]):
+                            if n.get('k') == 'un' and n.get('op') == '&':
+                                x = strip_casts(n['e'])
+                                if isinstance(x, dict) and x.get('k') == 'ref':
+                                    bad.add(x['n'])
+            pn = {p['name'] for p in self.params}
+            self._scoped = {n: v for n, v in decls.items() if n not in bad and n not in pn}
+        return self._scoped
+
+    def expand(self, e, bid, depth=0):
+        """tree with every local that has exactly one dominating call-free declaration replaced by its initialiser"""
+        sd = self.scoped_decls()
+        if not sd or depth > 4 or e is None:
+            return e
+        dom = self.dominators()
+
+        def go(x):
+            if isinstance(x, list):
+                return [go(y) for y in x]
+            if not isinstance(x, dict):
+                return x
+            if x.get('k') == 'ref' and not x.get('p') and not x.get('g') and x.get('n') in sd:
+                cands = [(b, i_) for b, i_ in sd[x['n']] if b in dom.get(bid, ())]
+                if len(cands) == 1:
+                    return self.expand(cands[0][1], cands[0][0], depth + 1)
+                return x
+            return {k: (go(v) if isinstance(v, (dict, list)) else v) for k, v in x.items()}
+        return go(e)
+
     # ---- pruned edges under a constant environment
     def edges(self, bid, env=None):
         """successors of a block, with branches decided by constants in env pruned.
@@ -240,6 +290,13 @@ class Func:
             return [(s, None) for s in su if s is not None]
         kind = t['kind']
         cond = t.get('cond')
+        if env and cond is not None:
+            # a condition over a local that only abbreviates an expression (const int is_128 = (16 == key_sz)) is decided like
+            # the expression itself
+            memo = self.__dict__.setdefault('_xcond', {})
+            if bid not in memo:
+                memo[bid] = self.expand(cond, bid)
+            cond = memo[bid]
         if kind in ('IfStmt', 'ConditionalOperator', 'WhileStmt', 'ForStmt', 'DoStmt', 'BinaryOperator') and len(su) == 2:
             v = evalc(cond, env) if cond is not None else None
             if kind == 'BinaryOperator':
